@@ -35,8 +35,15 @@ class Composite(Prop):
     def __init__(self, pid, part_names, extra_props_files=(), **kw):
         self.id = pid
         self.parts = {}
+        self.missing_parts = []
         for n in part_names:
-            p = load_part(n)
+            try:
+                p = load_part(n)
+            except ModuleNotFoundError as e:
+                if e.name != "props.part_" + n:
+                    raise
+                self.missing_parts.append(n)     # part not built yet
+                continue
             if pid in getattr(p, "serves", [pid]):
                 self.parts[p.name] = p
         files = list(extra_props_files)
